@@ -825,6 +825,16 @@ func genWaitCase(t *rapid.T) *qCase {
 		n := rapid.IntRange(1, 40).Draw(t, "segLen")
 		if big {
 			n = rapid.IntRange(40, 400).Draw(t, "segLenBig")
+			if rapid.IntRange(0, 1).Draw(t, "flood") == 0 {
+				// a flood of equal-priority waiters (the FIFO container spills into its plain ring beyond the
+				// in-line slice: 8,16,..,~143/256), then a waiter of another priority: the container is rebuilt as
+				// a priority queue from the in-line slice and the ring
+				p := rapid.SampledFrom(prioPool).Draw(t, "floodPrio")
+				for i := rapid.IntRange(130, 420).Draw(t, "floodLen"); i > 0; i-- {
+					c.Ops = append(c.Ops, qOp{Op: "add", A: p})
+				}
+				c.Ops = append(c.Ops, qOp{Op: "add", A: (p + rapid.SampledFrom([]int{1, 3, 250}).Draw(t, "floodOther")) % 256})
+			}
 		}
 		for i := 0; i < n; i++ {
 			r := rapid.IntRange(0, 99).Draw(t, "r")
